@@ -793,6 +793,9 @@ func (w *worker) Run(ctx context.Context, req taskRunRequest, reply *taskRunRepl
 	}
 	task.state = TaskRunning
 	task.Unlock()
+	// The task may have run on this worker before (e.g. its output was
+	// discarded, or it was lost): report the metrics of this run only.
+	task.Scope.Reset(nil)
 	// Gather inputs from the bigmachine cluster, dialing machines
 	// as necessary.
 	var (
